@@ -4,7 +4,8 @@
 //! 0 continue / 1 stop / 2 error-continue / 3 panic / 4 wait-while-started (default once the
 //! list is exhausted); so 0 ok / 1 err / 2 panic (shutdown).  Every scripted call first
 //! acquires a permit of one semaphore (the "gate").  ops: 0 start(), 1 stop(), 2 one permit,
-//! 3 spawn `await_stop()`, 4 spawn `await_start_or_stop()`, 5 nothing.  After every op the
+//! 3 spawn `await_stop()`, 4 spawn `await_start_or_stop()`, 5 nothing, 6 spawn
+//! `StateWatcher::while_started()`, 7 spawn `StateWatcher::wait_stopping_or_stopped()`.  After every op the
 //! harness yields until everything runnable has run.  Observation per op:
 //! `(ret state into_calls run_calls shutdown_calls (awaiter results))`.
 use fuel_core_services::{
@@ -162,6 +163,27 @@ pub fn run(input: &T) -> T {
                         });
                     }
                     5 => {}
+                    6 | 7 => {
+                        // the real StateWatcher helpers on a watcher of this runner; the
+                        // watcher subscribes here (the model subscribes at the spawn op)
+                        let idx = {
+                            let mut r = results.lock().unwrap();
+                            r.push(None);
+                            r.len() - 1
+                        };
+                        let mut watcher = runner.state_watcher();
+                        let (runner, results) = (runner.clone(), results.clone());
+                        tokio::spawn(async move {
+                            let st = if op == 6 {
+                                watcher.while_started().await.expect("watch closed")
+                            } else {
+                                watcher.wait_stopping_or_stopped().await.expect("watch closed");
+                                // returns (): the state at the moment of the return
+                                runner.state()
+                            };
+                            results.lock().unwrap()[idx] = Some(st);
+                        });
+                    }
                     k => panic!("bad op {k}"),
                 }
                 settle().await;
@@ -231,6 +253,11 @@ pub fn gen(rng: &mut Rng, n: u64, tier: &str) -> Vec<T> {
                 cases.push(case(io, &[0, 2, ro], so, &[0, 4, 2, 2, 2, 2, 3, 1, 2, 2, 0, 1]));
                 cases.push(case(io, &[ro], so, &[1, 0, 3, 2, 2]));
                 cases.push(case(io, &[ro, ro], so, &[2, 2, 2, 2, 0, 3, 1, 1]));
+                // StateWatcher waits called while Started / NotStarted / Starting / Stopping
+                cases.push(case(io, &[ro], so, &[0, 2, 7, 6, 1, 2, 2]));
+                cases.push(case(io, &[ro], so, &[7, 6, 0, 2, 1, 2, 2]));
+                cases.push(case(io, &[ro], so, &[0, 7, 6, 2, 2, 1, 2]));
+                cases.push(case(io, &[ro], so, &[0, 2, 1, 7, 6, 2, 2]));
             }
         }
     }
@@ -247,7 +274,7 @@ pub fn gen(rng: &mut Rng, n: u64, tier: &str) -> Vec<T> {
                 2 | 3 => 1,
                 4..=6 => 2,
                 7 => 3,
-                8 => 4,
+                8 => *rng.pick(&[4u64, 6, 7, 7]),
                 _ => 5,
             })
             .collect();
